@@ -574,5 +574,49 @@ func init() {
 			e.fail("ResourceForceUpdateSeconds default not found")
 		}
 		fmt.Fprintf(&e.out, "def resourceForceUpdateSeconds : Int := %d\n", force)
+
+		// ---- ext6: the budget's node-reservation term.  helpers.GetNodeResourceReserved hands node.Annotations to ONE helper of
+		// pkg/util; neither that helper nor GetNodeReservationResources may look at the annotation's ApplyPolicy (the model's
+		// annoReservedP ignores it: the amount is reserved under every policy).
+		annoCallee, nAnnoCalls := "", 0
+		if fd := e.funcDecl("pkg/koordlet/qosmanager/helpers", "", "GetNodeResourceReserved"); fd == nil || fd.Body == nil {
+			e.fail("helpers.GetNodeResourceReserved not found")
+		} else {
+			ast.Inspect(fd.Body, func(n ast.Node) bool {
+				if c, ok := n.(*ast.CallExpr); ok {
+					for _, a := range c.Args {
+						if norm(a) == "node.Annotations" {
+							annoCallee = norm(c.Fun)
+							nAnnoCalls++
+						}
+					}
+				}
+				return true
+			})
+		}
+		fmt.Fprintf(&e.out, "def nodeReservedAnnoHelper : String := %s\n", leanStr(annoCallee))
+		fmt.Fprintf(&e.out, "def nodeReservedAnnoHelperCalls : Nat := %d\n", nAnnoCalls)
+		readsPolicy := false
+		for _, fn := range []string{"GetNodeReservationFromAnnotation", "GetNodeReservationResources"} {
+			fd := e.funcDecl("pkg/util", "", fn)
+			if fd == nil || fd.Body == nil {
+				e.fail("util.%s not found", fn)
+				continue
+			}
+			ast.Inspect(fd.Body, func(n ast.Node) bool {
+				switch v := n.(type) {
+				case *ast.SelectorExpr:
+					if strings.Contains(v.Sel.Name, "ApplyPolicy") {
+						readsPolicy = true
+					}
+				case *ast.Ident:
+					if strings.Contains(v.Name, "ApplyPolicy") {
+						readsPolicy = true
+					}
+				}
+				return true
+			})
+		}
+		fmt.Fprintf(&e.out, "def annoReservationReadsApplyPolicy : Bool := %v\n", readsPolicy)
 	}
 }
